@@ -474,6 +474,62 @@ def rule_safe_inv(ctx, R):
     ctx.check(not bad, "SAFE-INV", "daachorse", "no-manual-send-sync", "", "no hand-written Send/Sync impls; found %s" % bad)
 
 
+def rule_safe_asref(ctx, R):
+    """SAFE-ASREF (C07, last sentence: "safe callers cannot trigger memory unsafety through any safe API").
+    `AsRef::as_ref` of the caller's haystack type is safe code the caller writes; nothing obliges two calls to return the same
+    slice (interior mutability is enough).  An unsafe operation is therefore unsound when its precondition was established on the
+    result of ONE `as_ref()` call and it is applied to the result of ANOTHER:
+      (a) an unchecked index into `self.<haystack>.as_ref()` with an index kept in the iterator across `next()` calls;
+      (b) the unchecked UTF-8 decoder fed, from a safe entry point, by an adapter that calls `as_ref()` again for every byte
+          (the bytes of two different strings spliced together need not be UTF-8)."""
+    lib = ctx.lib
+    for v in R.variants():
+        if not v.ok:
+            continue
+        # (a) iterators' next bodies
+        for kind, nb in v.next.items():
+            I = v.iters[kind]
+            gen = [f for f in lib.adts[I]["variants"][0]["fields"] if f["tyj"]["k"] == "param"]
+            src_fields = {f["name"] for f in gen}
+            S = Sites(lib, nb)
+            asref_on_src = [s for s in S.calls if core.callee_base(s["key"]) == "core::convert::AsRef::as_ref" and s["args"] and
+                            s["args"][0][0] == "field" and s["args"][0][3] in src_fields]
+            for s in S.calls:
+                if not s["c"].unsafe or s["tj"].get("exp"):
+                    continue
+                if core.callee_base(s["key"]) not in (GET_UNCHECKED, STR_GET_UNCHECKED, "core::slice::get_unchecked_mut"):
+                    continue
+                cont = s["args"][0]
+                if cont[0] == "field" and cont[3] in src_fields and self_param(cont[1]) and asref_on_src:
+                    idx = s["args"][1]
+                    persistent = any(x[0] == "field" and self_param(x[1]) and x[3] not in src_fields for x in walk(idx))
+                    ctx.check(not persistent, "SAFE-ASREF", nb, "unchecked-index-into-fresh-as_ref:%s:%s" % (v.tag, kind), nb.loc(s["bb"]),
+                              "`%s.as_ref()` is indexed without a check at an offset kept from earlier calls (%s): sound only if the "
+                              "haystack's AsRef impl returns the same slice every time, which safe code need not do"
+                              % (cont[3], show(idx)), show(idx))
+        # (b) safe entry points that hand an as_ref-per-byte adapter to the unchecked decoder
+        ad = ADAPTERS[v.tag]
+        anb = lib.find_bodies(adt=ad, trait="core::iter::Iterator", name="next")
+        per_byte = False
+        if len(anb) == 1:
+            AS = Sites(lib, anb[0])
+            per_byte = any(core.callee_base(s["key"]) == "core::convert::AsRef::as_ref" for s in AS.calls)
+        for name, b in sorted(v.methods.items()):
+            f = lib.fns.get(b.path)
+            if f is None or f["unsafe"]:
+                continue
+            S = Sites(lib, b)
+            for s in S.calls:
+                if s["c"].adt == DECODER and s["name"] == "new" and s["vw"] is S.root:
+                    arg = s["args"][0]
+                    fed_by_adapter = arg[0] == "call" and isinstance(arg[1], str) and arg[1].split("@")[0] == ad + "::new"
+                    ctx.check(not (fed_by_adapter and per_byte), "SAFE-ASREF", anb[0] if anb else b, "utf8-validity-across-as_ref-calls:%s" % name,
+                              b.loc(s["bb"]),
+                              "safe entry point %s feeds the unchecked UTF-8 decoder (unwrap_unchecked on continuation bytes, "
+                              "char::from_u32_unchecked) from %s, whose next() calls the haystack's as_ref() again for every byte: "
+                              "with an AsRef<str> impl that returns different strings the byte stream is not UTF-8" % (name, ad))
+
+
 def rule_utf8_ctor(ctx, R):
     lib = ctx.lib
     n = 0
